@@ -194,8 +194,12 @@ func (p *Program) lifecycle() *lifecycle {
 				}
 			}
 		}
-		if hst != nil && lc.Cleanup != nil {
-			for _, ef := range p.edgeFacts(p.ig(lc.Cleanup)) {
+		// restarting flag: the other bool flag of the handler, read by the restart step (fallback: by the cleanup step)
+		for _, src := range []*ssa.Function{lc.Cleanup, lc.HandleRestart} {
+			if hst == nil || src == nil {
+				continue
+			}
+			for _, ef := range p.edgeFacts(p.ig(src)) {
 				if ef.Field != lc.Continue && isBool(ef.Field.Type()) && fieldVar(lc.HandlerT, ef.Field.Name()) == ef.Field {
 					lc.Restarting = ef.Field
 				}
